@@ -246,6 +246,46 @@ def check_minixr():
     bad = same(fm_, fr_, "full_like")
     if bad:
         return n, bad
+    # full_like with per-variable dtypes: what a NaN fill becomes in bool / str / float variables
+    md = mx.Dataset({"e": 1.5, "ok": True, "tag": "t"})
+    rd = xr.Dataset({"e": 1.5, "ok": True, "tag": "t"})
+    for dt in (float, None, {"e": float, "ok": bool, "tag": np.dtype("<U8")}):
+        om = outcome(lambda: mx.full_like(md, mx.NAN, dtype=dt))
+        orr = outcome(lambda: xr.full_like(rd, np.nan, dtype=dt))
+        n += 1
+        if om[0] != orr[0]:
+            return n, "full_like dtype=%r: %r vs %r" % (dt, om, orr)
+        if om[0] == "ok":
+            for v in ("e", "ok", "tag"):
+                a = om[1]._vars[v].cells[()]
+                b = orr[1][v].values.item()
+                if (mx.isnull(a), None if mx.isnull(a) else a) != ((b != b), None if b != b else b):
+                    return n, "full_like dtype=%r variable %s: %r vs %r" % (dt, v, a, b)
+    if md._vars["ok"].dtype != rd["ok"].dtype or md._vars["e"].dtype != rd["e"].dtype:
+        return n, "dtype of bool / float variables differs"
+    # isel / sel: positions, empty indexers, option-named keyword arguments
+    m2 = mx.Dataset(coords={"a": [1, 2], "tolerance": [0.1, 0.2]},
+                    data_vars={"x": (("a", "tolerance"), [[1.0, 2.0], [3.0, 4.0]])})
+    r2 = xr.Dataset(coords={"a": [1, 2], "tolerance": [0.1, 0.2]},
+                    data_vars={"x": (("a", "tolerance"), np.array([[1.0, 2.0], [3.0, 4.0]]))})
+    for what, fm2, fr2 in (
+            ("isel {}", lambda: m2.isel({}), lambda: r2.isel({})),
+            ("isel a=0", lambda: m2.isel({"a": 0}), lambda: r2.isel({"a": 0})),
+            ("isel a=-1", lambda: m2.isel(a=-1), lambda: r2.isel(a=-1)),
+            ("isel a=5", lambda: m2.isel(a=5), lambda: r2.isel(a=5)),
+            ("isel q", lambda: m2.isel({"q": 0}), lambda: r2.isel({"q": 0})),
+            ("sel dict", lambda: m2.sel({"a": 1, "tolerance": 0.2}), lambda: r2.sel({"a": 1, "tolerance": 0.2})),
+            ("sel **kw tolerance", lambda: m2.sel(a=1, tolerance=0.2), lambda: r2.sel(a=1, tolerance=0.2)),
+            ("sel drop", lambda: m2.sel({"a": 2}, drop=True), lambda: r2.sel({"a": 2}, drop=True)),
+            ("sel method int", lambda: m2.sel({"a": 2}, method=3), lambda: r2.sel({"a": 2}, method=3))):
+        om, orr = outcome(fm2), outcome(fr2)
+        n += 1
+        if om[0] != orr[0] or (om[0] == "exc" and om[1] != orr[1]):
+            return n, "%s: %r vs %r" % (what, om, orr)
+        if om[0] == "ok":
+            bad = same(om[1], orr[1], what)
+            if bad:
+                return n, bad
     return n, None
 
 
